@@ -14,4 +14,8 @@ let dispatch fnum z nat entry (is : int list) (xs : Obj.t list) : Obj.t list res
   | "mindex", [v; sys; n] -> run_mindex fnum (z v) (z sys) (nat n) xs
   | "mindex_full", [v; sys; n] -> run_mindex_full fnum (z v) (z sys) (nat n) xs
   | "matq", [] -> run_matq fnum xs
+  | "gen_qprod", [] -> run_gen_qprod fnum xs
+  | "gen_random", [sys] -> run_gen_random fnum (z sys) xs
+  | "gen_index", [sys] -> run_gen_index fnum (z sys) xs
+  | "gen_symops", [sys] -> run_gen_symops fnum (z sys) xs
   | _ -> Err OtherError
